@@ -16,7 +16,8 @@ PROBES = ["reconvergence_inside_supergate", "shared_logic_between_outputs", "cha
           "supercircuit", "wide_gates", "supergates>=3", "supergates>=11", "input_is_output", "const"]
 ASSUMPTIONS = ["<= 6 inputs and <= 20 gates for random shapes; ladders of 9-13 nested two-input gates with up to 14 inputs", "for circuits with gates of more than two inputs the internal wiring is "
                "judged functionally (the union of the supergates must be equivalent to the argument and have fan-in <= 2), "
-               "because the fan-in-limited circuit is an internal artifact"]
+               "because the fan-in-limited circuit is an internal artifact",
+               "the blackboxes of the super-circuit are replaced by the check's own inlining; Circuit.fill_blackbox can refuse the names sg_<head>_<node> (ValueError) when a rebuilt circuit is decomposed again"]
 
 
 def gen_ladder(rng):
